@@ -8,6 +8,9 @@ structural:registry   `vharness aux C14registry` walks the init() functions of p
 structural:immediate-guards   the same walker checks that FunExpr binds
                       `isimmediate := IsImmediateFunction(name)` and that each of the cases "async",
                       "spin", "spinasync" starts with `if isimmediate { return nil, <error> }`.
+stage:nested-completion   OBSERVATIONAL, harness/c14nest.go: ASYNC / SPINASYNC calls made by a query nested as join
+                      operand, derived table, CTE, UNION side, row-scoped subquery or inner dimension (two levels)
+                      have all been invoked and have completed when Exec returns, exactly once per row.
 stage:race            (thorough tier) the C14 driver from a `go build -race` harness: every data
                       race report is a failing schedule, its log is the replay.
 """
@@ -114,12 +117,46 @@ def extra_stage(ctx):
     return res
 
 
+def nest_stage(ctx):
+    """OBSERVATIONAL (no Coq model behind it): completion of ASYNC / SPINASYNC calls before Exec returns, wherever the
+    query making the calls is nested (harness/c14nest.go): select list x nesting x nesting x latency, each cell run with
+    and without the qualifiers."""
+    name = "nested-completion (observational)"
+    res = {"name": name, "ok": False, "violations": [], "coverage": {}}
+    d = os.path.join(ctx["rundir"], "c14nest")
+    rc, out = ctx["run"]([ctx["exe"], "aux", "c14nest", "-tier", ctx["tier"], "-seed", str(ctx["seed"]), "-out", d],
+                         cwd=ctx["rundir"], env=ctx["goenv"], timeout=900)
+    p = os.path.join(d, "c14nest.json")
+    if rc != 0 or not os.path.exists(p):
+        res["detail"] = "driver failed: " + out[-300:]
+        res["broken"] = "stage:nested-completion did not complete: " + out[-200:].replace("\n", " ")
+        return res
+    m = json.load(open(p))
+    fails = m.get("failures") or []
+    res["coverage"] = {"cases": m.get("checks", 0), "compared": m.get("compared", 0), "calls": m.get("calls", 0),
+                       "by_position": m.get("by_position"), "by_list": m.get("by_list"),
+                       "rule": "8 select lists (SPINASYNC alone / next to a column / twice / next to ONCE, a plain call, ASYNC; ASYNC alone) x 9 positions (top, derived * / re-projected, CTE, UNION side, left / right / both join operands with 6 join spellings, row-scoped subquery; 2- and 3-dimensional sources) x one more level (derived, CTE, join operand, UNION side) x latency 0 / 0.2 / 2 ms; observed on the real code only: at the instant Exec returns started == completed, nothing starts afterwards, and the number of invocations equals that of the statement with the qualifiers removed"}
+    # a matrix in which (almost) nothing is comparable checks nothing
+    thin = m.get("compared", 0) * 10 < m.get("checks", 0) * 9
+    res["ok"] = not fails and not thin
+    res["detail"] = "%d of %d nested statements leave a qualified call unfinished, start one late or change the number of invocations (%d comparable)" % (
+        len(fails), m.get("checks", 0), m.get("compared", 0))
+    if thin and not fails:
+        res["broken"] = "stage:nested-completion: only %d of %d statements are accepted with the calls unqualified" % (m.get("compared", 0), m.get("checks", 0))
+    for i, f in enumerate(fails[:3]):
+        rp = os.path.join(ctx["root"], "replays", "C14-%s-%d-nest-%d.json" % (ctx["tier"], ctx["seed"], i))
+        json.dump({"property": "C14", "failure": f, "replay": "vharness aux c14nest -tier %s -seed %d -out <dir>" % (ctx["tier"], ctx["seed"])}, open(rp, "w"), indent=1)
+        res["violations"].append((rp, ""))
+    return res
+
+
 def install(CONFIG, EXTRA_TB, ASSUME):
-    CONFIG["C14"] = {"shard": 120, "structural": structural, "stages": [race_stage, extra_stage], "harness": True}
+    CONFIG["C14"] = {"shard": 120, "structural": structural, "stages": [race_stage, extra_stage, nest_stage], "harness": True}
     EXTRA_TB["C14"] = [
         "Model/Strategies.v: the goroutine that calls Exec is modelled as a deterministic list of atomic actions (synchronous call, go+wg.Add, forwarder) computed by `compile` from FunExpr/SelectExpr/exec; this rests on main reading nothing a worker writes before wg.Wait(), which the -race stage of this check watches on the real code; Go's memory model (happens-before of wg.Done -> wg.Wait, go statement) is assumed, interleaving semantics = sequential consistency of the atomic steps",
         "user functions are a pure oracle name -> args -> (value | error | panic); `await`, GLOBAL and qualified calls nested inside other expressions are outside the model; sqlparser maps `ASYNC.F(x)` to FuncExpr{Qualifier, Name} (observed on every case)",
         "Spec/StrategiesSpec.v: the in-place meaning of a select list (call -> column, SPIN/SPINASYNC -> no column, ONCE -> memo keyed by function name), written from the property text",
+        "nested positions beyond the model (join operands, CTEs, UNION sides, two levels of nesting) are OBSERVED, not modelled: stage nested-completion runs each generated statement with and without the qualifiers on the real code and compares invocation counts and completion at the instant Exec returns",
         "harness instrumentation: a hidden first argument routes each invocation to the recorder of its Exec; completion is recorded in a deferred block of the registered function; `at return` = snapshot taken in the statement after Exec() returns",
     ]
     ASSUME["C14"] = [
